@@ -60,7 +60,7 @@ func (c11) Assumptions() []string {
 	return []string{"completion order is an explicit input: the gate holds every concurrent chunk call until all are pending, then releases them one at a time, waiting for each answer to be consumed", "a watchdog that fires while waiting for pending calls makes the case inconclusive, never a violation"}
 }
 
-var c11Kinds = []string{"transport-error", "status-500", "element-errors", "short-array", "long-array", "context-cancelled"}
+var c11Kinds = []string{"transport-error", "status-500", "element-errors", "short-array", "long-array", "context-cancelled", "transport-eof", "status-503-valid-body"}
 
 type c11Combo struct {
 	n, m, order, failAt int
@@ -252,6 +252,12 @@ func (rt *c11RT) RoundTrip(req *http.Request) (*http.Response, error) {
 			return nil, errors.New("c11 transport: injected failure")
 		case "status-500":
 			return mk(500, []byte(`[]`)), nil
+		case "transport-eof":
+			// the service read the call (it is recorded above) and dropped the connection without answering
+			return nil, io.EOF
+		case "status-503-valid-body":
+			out, _ := json.Marshal(els)
+			return mk(503, out), nil
 		case "element-errors":
 			els[len(els)-1] = map[string]any{"errors": []any{map[string]any{"message": "injected"}}, "data": nil}
 		case "short-array":
